@@ -23,6 +23,7 @@ def terms_for(tier):
     b = INFO["bounds"][tier]
     out = [(t, "T1", b["L_T1"]) for t in G.tier1()] + [(t, "T2", b["L_T2"]) for t in G.tier2()] + [(t, "T3", b["L_T3"]) for t in G.tier3()] \
         + [(t, "T4", b["L_T2"]) for t in G.tier4()] + [(t, "TS", b["L_T2"]) for t in G.select_records()]
+    out += [(t, "TSt", b["L_T3"]) for t in G.streaming_terms(1 if tier == "quick" else 2)]
     if tier == "thorough":
         out += [(t, "T5", b["L_T5"]) for t in G.tier5()]
     return out
